@@ -129,3 +129,49 @@ Proof. repeat split; try reflexivity; try apply src_tst_sub. Qed.
 Lemma src_tst_real t d : 0 < d < 2 ^ 31 ->
   TST_gt ((t + d) mod 2 ^ 32) (t mod 2 ^ 32) = true /\ TST_gt (t mod 2 ^ 32) ((t + d) mod 2 ^ 32) = false.
 Proof. intros H. rewrite !src_tst_gt. split; [apply tst_gt_real | apply tst_gt_old]; lia. Qed.
+
+(* ---- location table entry: the update rule and the expiry rule regenerated from the source ------------------------------ *)
+Lemma src_update_pv e pv :
+  LocTE_update_position_vector pv (e_pv e) (e_set e) = (e_pv (update_pv e pv), e_set (update_pv e pv)).
+Proof.
+  unfold LocTE_update_position_vector, update_pv, pv_tst, arg. rewrite src_tst_gt.
+  destruct (e_set e) eqn:Es; cbn [negb].
+  - destruct (tst_gt (nth 3 pv 0) (nth 3 (e_pv e) 0)); cbn [e_pv e_set]; rewrite ?Es; reflexivity.
+  - reflexivity.
+Qed.
+
+Lemma src_is_current e now life_s :
+  LocT_is_current (e_set e) (e_ls e) (pv_tst (e_pv e)) now life_s = keep now (life_s * 1000) e.
+Proof.
+  unfold LocT_is_current, keep. rewrite src_tst_gt, src_tst_sub. destruct (e_set e); reflexivity.
+Qed.
+
+(* the clauses of C08 on the regenerated functions *)
+Lemma src_update_never_older stored pv t d : 0 <= d < 2 ^ 31 ->
+  nth 3 pv 0 = t mod 2 ^ 32 -> nth 3 stored 0 = (t + d) mod 2 ^ 32 ->
+  LocTE_update_position_vector pv stored true = (stored, true).
+Proof.
+  intros Hd E1 E2. unfold LocTE_update_position_vector. cbn [negb]. rewrite src_tst_gt, E1, E2.
+  rewrite tst_gt_old by exact Hd. reflexivity.
+Qed.
+
+Lemma src_update_newer stored pv t d received : 0 < d < 2 ^ 31 ->
+  nth 3 pv 0 = (t + d) mod 2 ^ 32 -> nth 3 stored 0 = t mod 2 ^ 32 ->
+  LocTE_update_position_vector pv stored received = (pv, true).
+Proof.
+  intros Hd E1 E2. unfold LocTE_update_position_vector. destruct received; cbn [negb]; [|reflexivity].
+  rewrite src_tst_gt, E1, E2. rewrite tst_gt_real by exact Hd. reflexivity.
+Qed.
+
+Lemma src_first_pv_accepted stored pv : LocTE_update_position_vector pv stored false = (pv, true).
+Proof. reflexivity. Qed.
+
+Lemma src_expiry_real ls N T life_s : 0 <= life_s * 1000 < 2 ^ 31 -> - 2 ^ 31 < N - T < 2 ^ 31 ->
+  LocT_is_current true ls (T mod 2 ^ 32) (N mod 2 ^ 32) life_s = (N - T <=? life_s * 1000).
+Proof.
+  intros Hl Hn.
+  pose (e := mkEntry [] [0; 0; 0; T mod 2 ^ 32] true false ls []).
+  change (LocT_is_current true ls (T mod 2 ^ 32) (N mod 2 ^ 32) life_s)
+    with (LocT_is_current (e_set e) (e_ls e) (pv_tst (e_pv e)) (N mod 2 ^ 32) life_s).
+  rewrite src_is_current. apply keep_real; try reflexivity; assumption.
+Qed.
